@@ -478,3 +478,13 @@ Definition ref_txt_model (txt : list bytes) : bytes :=
        | v :: _ => v
        | [] => []
        end.
+
+(* ------------------------------------------------------------------ *)
+(* The key of the naming table is the question name as an exact octet string.  RFC 4343 makes name
+   COMPARISON in the DNS case-insensitive for ASCII letters, but a cache that hands names on must keep
+   the spelling it was asked with, and the independent implementation this property compares with
+   (golang.org/x/net/dns/dnsmessage: Name is a byte array, names are compared byte-wise) does not fold
+   case either; so "www.Example.com" and "www.example.com" are two entries, each accumulating the
+   records of the responses that used that spelling.  [tfind] / [tput] above compare with [lab_eqb],
+   i.e. on exactly this key. *)
+Definition table_key (name : bytes) : bytes := name.
